@@ -16,6 +16,8 @@ Monitor, on the IMPLEMENTATION's observations only (previous vs. current observa
   join-ignores-buffered-intent  memberlist announces a not-yet-listed member: its status / status time are not those of
                         the newest intent delivered for it while unlisted (leave ⇒ leaving, join ⇒ alive, at that time;
                         alive at 0 when nothing is buffered)
+  localstate-missing-status-time / localstate-missing-left  LocalState (the push/pull image) lacks the status time of a
+                        listed member (left members included) or a left member in LeftMembers
   merge-stale-applied   same, for an entry of a push/pull merge (left member ⇒ leave at t+1, else join at t)
 -/
 namespace SerfModel.Check.C02
@@ -123,7 +125,22 @@ def step (s : St) (f : List String) (impl : String) : LineOut St :=
   let (n', out, h) := modelLine s.base.node f
   match h with
   | .bad => { state := s, model := some out }
-  | .localState => { state := s, model := some out }
+  | .localState =>
+    -- LocalState must carry the status time of EVERY listed member (left ones too: MergeRemoteState makes the
+    -- leave intent of a left member at StatusLTimes[name] + 1) and every name of the left list
+    let fs := fields impl
+    let st := (fieldVal fs "st").map fun v => (splitList v).filterMap (parsePair · (·.toNat?))
+    let lf := (fieldVal fs "left").map fun v => (splitList v).filterMap stringOfHex?
+    let m : Option (String × String) := match st, lf with
+      | some st, some lf =>
+        match s.base.prev.members.find? (fun mem => alookup st mem.1 != some mem.2.2) with
+        | some mem => some ("localstate-missing-status-time", s!"LocalState does not carry status time {mem.2.2} of listed member {mem.1} (it carries {alookup st mem.1})")
+        | none =>
+          match (s.base.prev.members.filter (·.2.1 == .left)).find? (fun mem => !lf.contains mem.1) with
+          | some mem => some ("localstate-missing-left", s!"LocalState does not list left member {mem.1} in LeftMembers")
+          | none => none
+      | _, _ => some ("malformed", impl)
+    { state := s, model := some out, monitor := m }
   | _ =>
     match parseObs impl with
     | none => { state := { s with base := { s.base with node := n' } }, model := some out, monitor := some ("malformed", impl) }
